@@ -1,9 +1,10 @@
 """C17: low-entropy codec lossless, canonical, identical on every CPU path (DESIGN.md 7/C17)."""
 from vlib import run_pair
-from xl import xl_pair, xl_search
+from xl import xl_pair, xl_search, XL_TRUSTED
 
 PID = "C17"
 MODEL_VOS = ["base/Bits64.vo", "model/LowEntropy.vo"]
+TRUSTED_EXTRA = [XL_TRUSTED]
 USES_TRANSLATED = True     # props/C17.v has theorems over gen/Translated.v: a translator failure is a problem of this check
 ASSUMPTIONS = [
     "the BMI2 PDEPQ/PEXTQ instructions (pkg/mathext/bit_amd64.s) are outside the proof: they are only compared with the portable loops and with the Intel definition on the sampled (x, mask) pairs (quick ~20k, thorough >= 10^6) on the CPU this check runs on (report note 'bmi2' says whether that path was present)",
